@@ -68,6 +68,33 @@ CHECKS = {
    note=COMMON_NOTE + 'Theorems closed under the global context. Families currently covered: backward reasoner (3 goals), quick_term_or_rec, run_quick_machine; '
         'cps/segment families are included automatically once their harness commands exist.',
    tech='Rocq/Coq proof (generic loop monotonicity) + paired-limit check on the implementation + model correspondence'),
+ 'C08': dict(cat='proof', sec='DESIGN.md §6 C08, §12',
+   text='Coq theorems over the Gallina model of macros.rs (block logic), against the absolute-tape machine: C08_sim_body_sound / run_simulator soundness (one simulator iteration = n >= 1 base steps '
+        'inside the window, exits decoded), C08_enc_dec / C08_dec_enc / C08_encode_inj (positional colour code), C08_block_instr_sound (an answered instruction = the base machine leaves the '
+        'decoded block on the claimed side, in the claimed state, leaving the claimed contents; on ANY cache_ok object), C08_block_instr_none (no instruction <=> halts inside or never leaves: '
+        'the block sim_lim equals the configuration count exactly, pigeonhole), C08_block_run_sim (+ zipper and blank-tape versions: every macro configuration reached decodes to a base configuration '
+        'reached, with a strictly increasing clock), C08_block_obj_run (the real stateful get_instr with caches and memo yields exactly the pure run and never panics). Tie: real MacroProg vs '
+        'extracted model (answers, None, PANIC, cache dump, memo); an independent Python oracle re-simulates the base machine for every answered slot and runs macro and base machines in lockstep.',
+   note=COMMON_NOTE + 'Theorems closed under the global context; hypotheses: 1 <= k, 1 <= C, sizes fit u64, program within (states, colours). Nested macros: see C16.',
+   tech='Rocq/Coq proof (window simulation, pigeonhole, decoding) + model/implementation correspondence + independent lockstep oracle'),
+ 'C09': dict(cat='other', sec='DESIGN.md §6 C09, §5 F3, §12',
+   text='The property is FALSE of the unchanged code (known finding F3: split_at(self.cells - 1)) and that is machine-checked: C09_back_refuted. Proved for the repaired logic '
+        '(model switch lg_split_fix): C09_back_instr_sound_fix, C09_back_instr_none_fix (<=> under the counting hypothesis, which holds for k = 1: C09_back_pigeon_k1; '
+        'C09_back_pigeon_fails shows the code\'s sim_lim is smaller than the number of window configurations for k >= 2, so "never leaves" is only proved in the weak form '
+        'C09_back_instr_none_weak there - no witness exists in the searched scope), C09_back_run_sim_fix (+ zipper, blank), C09_back_obj_run_fix; and for the FAITHFUL logic: '
+        'C09_back_right_exit_eq(_obj) (it equals the repaired one unless the window is left on the left), C09_back_run_sim_outside_F3. Tie + oracle as C08; oracle failures are attributed to F3 '
+        'iff the faithful model agrees with the code and the model with the repair does not show the failure; anything else is a VIOLATION.',
+   note=COMMON_NOTE + 'Known finding F3 open (its repair changes pinned test counts).',
+   tech='Rocq/Coq refutation + proofs for the repaired logic and outside the defect + correspondence + independent oracle with counterfactual attribution'),
+ 'C10': dict(cat='proof', sec='DESIGN.md §6 C10, §12',
+   text='Coq theorems over the Gallina model of tree.rs against a declarative inductive specification Gen (Spec/TreeSpec.v): C10_sound_complete (emitted <=> Gen), C10_nodup and '
+        'C10_nodup_tables (no program twice), C10_schedule_indep (for every permutation of the first-level tasks and every interleaving of their harvest sequences the result is a permutation of the '
+        'sequential one; C10_task_accumulator: a task\'s harvest is a function of its own inputs), C10_tnf / C10_tnf_order (normal form, feeds C14), C10_no_panic(_gen), characterisations of make_instrs / '
+        'update_avail / the leaf filter. Tie: real tree_progs vs extracted model (count, sorted-set hash, duplicates) on 2x2/3x2/2x3 grids and 4x2/2x4 points; an INDEPENDENT plain-Python reference '
+        'enumerator written from the property text is compared as a set; the real code is run with 1,2,3,5,8,16 worker threads and must give identical sets.',
+   note=COMMON_NOTE + 'Real rayon scheduling, the Mutex and Arc::try_unwrap are outside the model (exercised, not proved). The implementation also cuts a branch when a step leaves the tape blank '
+        '(tree.rs:67-69), which the property text does not mention: Gen carries that cut (documented reading; the literal reading differs by 504/31 programs on 3x2).',
+   tech='Rocq/Coq proof (enumeration = inductive spec, NoDup, merge-order independence) + correspondence + independent reference enumerator + thread-count sweep'),
  'C11': dict(cat='proof', sec='DESIGN.md §6 C11, §5 F4/F6/F7/F8',
    text='Coq theorems over the Gallina model of rules.rs (with its i32 truncation, checked_sub/checked_mul/checked_add and panics explicit): '
         'C11_diff_exact / C11_make_rule_exact (an inferred additive rule reproduces all four count vectors when the true differences fit i32; '
@@ -105,6 +132,25 @@ CHECKS = {
         'vs the extracted model on exhaustive and random step sequences, every observer compared after every step.',
    note=COMMON_NOTE + 'Theorems closed under the global context (no axioms). u64 overflow of block counts is outside the model.',
    tech='Rocq/Coq proof (invariant by induction over step histories) + model/implementation correspondence'),
+ 'C16': dict(cat='other', sec='DESIGN.md §6 C16, §5 F3, §12',
+   text='Coq theorems over the Gallina model of macros.rs (caches and memo as explicit state): C16_history_indep_block (on any object reached by any query history the answer for a slot whose '
+        'colour is known equals the pure function calc of base program, parameters and slot), C16_order_indep_block, C16_repeat_same_block, C16_two_objects_indep, '
+        'C16_handed_out_decodes_block, C16_unknown_panics, C16_cache_inv_* (cache invariant), and the same for backsymbol macros with the F3 repair (C16_history_indep_back_fix, '
+        'C16_handed_out_decodes_back_fix) and for the faithful logic as long as no computed instruction left its window on the left (C16_history_indep_back_no_left_exit); nested macros of any '
+        'depth: C16_nested_history_indep. The property is FALSE of the unchanged backsymbol code: C16_history_dep_refuted (witness on the real code too). Tie: real get_instr vs model on query '
+        'histories (permutations, repetitions, two interleaved objects, nested); an independent oracle checks history independence and cache decoding on the implementation answers; failures attributed to F3 by '
+        'the model counterfactual, anything else is a VIOLATION.',
+   note=COMMON_NOTE + 'Known finding F3 open. Nested macros are checked with each layer given the params of the layer below (what tm/macro.py does); nesting with the BASE params passed again '
+        '(as two repo tests construct them) aliases colours and is history dependent even for block-over-block: treated as caller misuse, outside the property, correspondence only.',
+   tech='Rocq/Coq proof (cache invariant, purity) + refutation for the faithful backsymbol logic + correspondence + history oracle'),
+ 'C17': dict(cat='other', sec='DESIGN.md §6 C17, §12',
+   text='Component theorems (15, closed): the Gallina transcription of tm/tape.py Tape.step equals the Rust tape model on every tape with positive counts (C17_py_step_eq_rs, C17_py_history_eq_rs) and all '
+        'observers agree; additive count_apps / apply_rule / difference inference / make_rule of tm/rules.py equal the Rust models on in-range inputs (C17_py_count_apps_eq_rs, C17_py_apply_eq_rs, '
+        'C17_py_diff_eq_rs_additive, C17_py_make_rule_eq_rs_additive), with machine-checked witnesses of where they differ outside the range (u64 overflow, i32 truncation) and of the pre-fix F4 '
+        'disagreement. Whole-run agreement is NOT a theorem (tm/machine.py, tm/prover.py are not modelled): it is established by three-way execution - the real Python Machine under CPython 3.12 with a '
+        'freshly built extension, the real Rust run_prover, and the models - on tree leaves and named machines; runs outside the property quantifier (non-additive rules, own limits) are counted, not compared.',
+   note=COMMON_NOTE + 'The extension is rebuilt from /repo on every run in a scratch directory under /tmp (removed afterwards). CPython 3.12 at /root/.pyenv/versions/3.12.1.',
+   tech='Rocq/Coq component proofs (Python model = Rust model) + three-way differential execution of whole runs'),
  'C18': dict(cat='other', sec='DESIGN.md §6 C18, §12.3',
    text='Partial by design: the MODULAR machinery of tm/num.py (Add/Mul/Div/Exp.__mod__, hard-coded residues, find_period, the binary loop, exp_mod_special_cases with all '
         '818 table rows) is transcribed to Gallina and PROVED sound for all expression trees and all moduli (C18_mod_sound: the model answer equals eval(e) mod m whenever every '
